@@ -33,12 +33,18 @@ VERB = [None, None, None, "0", "", "false", "1", "1", "true", "TRUE", "True", "t
 TRUE_SET = {"1", "t", "T", "TRUE", "true", "True"}       # strconv.ParseBool's documentation
 FNS = ["Run", "RunV", "RunWith", "RunWithV", "Output", "OutputWith", "Exec"]
 WITH_ENV = {"RunWith", "RunWithV", "OutputWith", "Exec"}
-WR = ["nil", "buf", "os"]
+WR = ["nil", "buf", "os", "nil", "buf", "os", "fail:0", "fail:3", "fail:64"]     # Exec's writers; fail:N accepts N bytes, then every Write fails
+SIGNALS = [9, 15, 1, 2]        # candidates; only those that really kill the helper in this environment are used (probed per run)
+
+
+def wfail_n(s):
+    """N of a writer 'fail:N', else None"""
+    return int(s[5:]) if s.startswith("fail:") else None
 # every way a start can fail that the harness can construct (name -> command string)
 NOSTART = {"missing-bare-name": "c15-no-such-command-xyz", "missing-path": "/nonexistent/c15-helper", "no-x-bit": "@NOEXEC@",
            "directory": "@BINDIR@", "exec-format-error": "@BADFMT@", "missing-interpreter": "@BADINTERP@",
            "empty-command": "", "through-regular-file": "@BIN@/x", "missing-relative": "./c15-nothing-here"}
-MAX_REPORT = 5          # replay files written per run (the evidence counts all failing cases)
+MAX_REPORT = 6          # replay files written per run, at most 2 per kind of clause (the evidence counts all failing cases)
 
 
 # ---------------------------------------------------------------- generation
@@ -48,7 +54,7 @@ def gen_arg(rng):
     return "".join(rng.choice(ARG_ODD if (odd and rng.random() < 0.6) else ARG_SIMPLE) for _ in range(n)) + (rng.choice(TRAILERS) if odd else "")
 
 
-def gen_case(rng, exit_code=None, fn=None, good_cmd=False):
+def gen_case(rng, exit_code=None, fn=None, good_cmd=False, signals=(9,)):
     fn = fn or rng.choice(FNS)
     c = {"fn": fn, "so": rng.choice(WR), "se": rng.choice(WR)}
     inherit = [[k, rng.choice(VALS)] for k in KEYS if rng.random() < 0.55]
@@ -103,7 +109,7 @@ def gen_case(rng, exit_code=None, fn=None, good_cmd=False):
         env.append(["MAGEFILE_VERBOSE", rng.choice(["1", "0"])])    # must NOT decide verbosity of the caller
     c["stdin"] = rng.choice(["", "stdin data\n", "\x00\x01\xff", "x" * 5000])
     c["exit"] = exit_code if exit_code is not None else rng.choice([0, 0, 0, 0, 0, 0, 1, 1, 2, 3, 94, 126, 127, 128, 137, 254, 255, rng.randrange(256)])
-    c["sig"] = 9 if (exit_code is None and rng.random() < 0.05) else 0
+    c["sig"] = rng.choice(list(signals)) if (exit_code is None and rng.random() < 0.06) else 0
     c["out"] = rng.choice(PAYLOADS) if rng.random() < 0.9 else "".join(chr(rng.randrange(256)) for _ in range(rng.choice([1, 7, 40, 120]))) + rng.choice(["", "\n", "\n\n"])
     c["err"] = rng.choice(PAYLOADS)
     c["via_map"] = bool(fn in WITH_ENV and env is not None and rng.random() < 0.12)
@@ -112,11 +118,11 @@ def gen_case(rng, exit_code=None, fn=None, good_cmd=False):
     return c
 
 
-def gen_raw(rng, quick):
+def gen_raw(rng, quick, signals=(9,)):
     out = []
     for k in range(256):
         out.append({"raw": True, "kind": "child", "cmd": "@BIN@", "exit": k, "sig": 0})
-    for s in (9,):     # only SIGKILL: other signals may be ignored or handled by the Go runtime of the child
+    for s in signals:
         out.append({"raw": True, "kind": "child", "cmd": "@BIN@", "exit": 0, "sig": s})
     for m in sorted(NOSTART.values()):
         out.append({"raw": True, "kind": "child", "cmd": m, "exit": 0, "sig": 0})
@@ -204,10 +210,18 @@ def make_request(w, c, workdir, idx):
     return {"op": "sh", "raw": raw}, setenv, (envm if uses else None)
 
 
-def run_all(w, cases):
+def probe_signals(w):
+    """the candidate signals that really terminate the helper child here (a signal can be inherited as ignored or blocked;
+    what the standard library says about the raw os/exec error decides)"""
+    cs = [{"raw": True, "kind": "child", "cmd": "@BIN@", "exit": 0, "sig": s} for s in SIGNALS]
+    res = run_all(w, cs, nw=len(cs))
+    return [s for s, (a, _, _) in zip(SIGNALS, res) if a["is_exit_error"] and not a["exited"] and a["signaled"]] or [9]
+
+
+def run_all(w, cases, nw=None):
     """returns per case (answer, setenv, envm_used)"""
     ctx = w.ctx
-    nw = max(1, min(NCPU, (len(cases) + 39) // 40))
+    nw = nw or max(1, min(NCPU, (len(cases) + 39) // 40))
     chunks = [list(range(i, len(cases), nw)) for i in range(nw)]
 
     def work(wi):
@@ -267,12 +281,28 @@ def oracle(w, c, a, setenv, envm):
     k = d["exit"] if exited else None
     out = unhex(d["out"]) + unhex(d.get("late_out") or "") if started else ""       # everything written to the stream, the
     errp = unhex(d["err"]) + unhex(d.get("late_err") or "") if started else ""      # late writes of a descendant included
-    # 1. nil iff exit 0
-    if a["err_nil"] != (exited and k == 0):
+    # Exec given a writer whose Write fails: the stream could not be delivered
+    nso, nse = (wfail_n(c["so"]), wfail_n(c["se"])) if fn == "Exec" else (None, None)
+    copy_failed = (nso is not None and len(out) > nso) or (nse is not None and len(errp) > nse)
+    # 0. whatever happened: a non-nil error never carries status 0 (mage would exit 0 on a failure), and the status is
+    #    the exit code the command returned or, when it returned none (not started, killed by a signal) or 0, it is 1
+    if not a["err_nil"]:
+        if a["mg_status"] == 0 or a["sh_status"] == 0:
+            bad.append("non-nil error (%s) with status mg=%d sh=%d; the command %s%s" % (a["err_text"][:60], a["mg_status"], a["sh_status"],
+                       "exited %d" % k if exited else ("was killed by signal %d" % d["sig"] if started else "could not be started"),
+                       ", a writer given to Exec failed" if copy_failed else ""))
+        elif (not exited or k == 0) and (a["mg_status"] != 1 or a["sh_status"] != 1):
+            bad.append("the command %s, so it returned no exit code to report, but the error's status is mg=%d sh=%d (want 1)" % (
+                       ("exited 0 and a writer given to Exec failed" if exited else ("was killed by signal %d" % d["sig"] if started else "could not be started")),
+                       a["mg_status"], a["sh_status"]))
+    # 1. nil iff exit 0 (when a writer failed the sentence does not say; 0. applies)
+    if copy_failed and exited and k == 0:
+        pass
+    elif a["err_nil"] != (exited and k == 0):
         bad.append("error is %s but the command %s" % ("nil" if a["err_nil"] else "non-nil: " + a["err_text"][:80],
                                                         "exited %d" % k if exited else ("was killed by signal %d" % d["sig"] if started else "could not be started")))
     # 2. status k
-    if exited:
+    if exited and not (copy_failed and k == 0):
         if a["mg_status"] != k or a["sh_status"] != k:
             bad.append("command exited %d, mg.ExitStatus=%d sh.ExitStatus=%d" % (k, a["mg_status"], a["sh_status"]))
         if a["ran"] is not None and a["ran"] is not True:
@@ -331,9 +361,9 @@ def oracle(w, c, a, setenv, envm):
         if os_err != errp:
             bad.append("%s: caller's stderr got %r, child wrote %r" % (fn, os_err[-40:], errp[-40:]))
     else:
-        if (bo, os_out) != (out if c["so"] == "buf" else "", out if c["so"] == "os" else ""):
+        if (bo, os_out) != (out if c["so"] == "buf" else (out[:nso] if nso is not None else ""), out if c["so"] == "os" else ""):
             bad.append("Exec stdout writer %s: buffer %r os.Stdout %r, child wrote %r" % (c["so"], bo[-40:], os_out[-40:], out[-40:]))
-        if (be, os_err) != (errp if c["se"] == "buf" else "", errp if c["se"] == "os" else ""):
+        if (be, os_err) != (errp if c["se"] == "buf" else (errp[:nse] if nse is not None else ""), errp if c["se"] == "os" else ""):
             bad.append("Exec stderr writer %s: buffer %r os.Stderr %r, child wrote %r" % (c["se"], be[-40:], os_err[-40:], errp[-40:]))
     return bad
 
@@ -396,7 +426,11 @@ def case_term(w, c, a, envm):
         k, _, v = unhex(x).partition("=")
         penv.append((k, v))
     fn = c["fn"]
-    ent = "(FExec %s %s)" % (WSO[c["so"]], WSE[c["se"]]) if fn == "Exec" else "F" + fn
+    if fn == "Exec" and (wfail_n(c["so"]) is not None or wfail_n(c["se"]) is not None):
+        wt = lambda s, tab: "(XFail %d)" % wfail_n(s) if wfail_n(s) is not None else "(XW %s)" % tab[s]
+        ent = "(XExec %s %s)" % (wt(c["so"], WSO), wt(c["se"], WSE))          # Model/Sh.exec_x
+    else:
+        ent = "(XE (FExec %s %s))" % (WSO[c["so"]], WSE[c["se"]]) if fn == "Exec" else "(XE F%s)" % fn
     if d is not None:
         child = child_term(d["exit"], d["sig"], unhex(d["out"]) + unhex(d.get("late_out") or ""), unhex(d["err"]) + unhex(d.get("late_err") or ""))
         started = "(Some (%s, %s))" % (coq_list([cs(unhex(x)) for x in d["argv"]]), coq_list([cs(unhex(x)) for x in d["env"] if not unhex(x).startswith(LONG_DIRECTIVES)]))
@@ -442,6 +476,7 @@ def run(ctx):
                          "os.Expand, os/exec (environment de-duplication: last entry wins; error of Cmd.Run per child outcome), "
                          "syscall.WaitStatus.ExitStatus, strconv.ParseBool behave as Model/Sh.v and Base/Expand.v say (modelled, validated by this run)"]
     w = World(ctx)
+    signals = probe_signals(w)
     rng = ctx.rng
     cases = []
     if ctx.replay and ctx.replay.get("case"):
@@ -485,11 +520,27 @@ def run(ctx):
                 c["late_err"] = "late err\n" if which == "err" else ""
                 c["out"] = rng.choice(["first\n", "", "no newline"])
                 cases.append(c)
+    # a child that kills itself with a signal (after writing its payloads): every usable signal through Exec and four wrappers
+    for sg in signals:
+        for fn, so, se in (("Exec", "buf", "buf"), ("Exec", "nil", "os"), ("Run", "nil", "nil"), ("Output", "nil", "nil"),
+                           ("RunWithV", "nil", "nil"), ("OutputWith", "nil", "nil")):
+            c = gen_case(rng, fn=fn, good_cmd=True)
+            c["sig"], c["so"], c["se"] = sg, so, se
+            cases.append(c)
+    # Exec given writers that fail (at once / after n bytes / never reached) while the command succeeds or fails
+    for k in (0, 0, 3, 255):
+        for so, se in (("fail:0", "buf"), ("buf", "fail:0"), ("fail:2", "nil"), ("nil", "fail:5"), ("fail:0", "fail:0"),
+                       ("fail:4000", "buf"), ("fail:1", "os"), ("os", "fail:1")):
+            c = gen_case(rng, exit_code=k, fn="Exec", good_cmd=True)
+            c["sig"], c["so"], c["se"] = 0, so, se
+            c["out"] = rng.choice(["some output\n", "x", "", "a\n\nb\n", "\x00\xff\x01bin\x00\n"])
+            c["err"] = rng.choice(["warning: something\n", "", "e"])
+            cases.append(c)
     nrand = 300 if ctx.quick else 9000
     for _ in range(nrand):
-        cases.append(gen_case(rng))
+        cases.append(gen_case(rng, signals=signals))
     ncall = len(cases)
-    cases += gen_raw(rng, ctx.quick)
+    cases += gen_raw(rng, ctx.quick, signals)
     ctx.log("built; %d cases" % len(cases))
     results = run_all(w, cases)
     ctx.log("implementation ran")
@@ -502,18 +553,26 @@ def run(ctx):
     shapes = {}
     cov_bg = [0]
     n_args = n_args_decided = n_bad = 0
+    reported = {}
+
+    def report(cl):
+        kind = re.sub(r"[0-9]+|'[^']*'|\"[^\"]*\"", "#", cl)[:48]
+        if sum(reported.values()) >= MAX_REPORT or reported.get(kind, 0) >= 2:
+            return False
+        reported[kind] = reported.get(kind, 0) + 1
+        return True
     for i, (c, (a, setenv, envm)) in enumerate(zip(cases, results)):
         if c.get("raw"):
             for cl in oracle_raw(c, a):
                 n_bad += 1
-                if n_bad <= MAX_REPORT:
+                if report(cl):
                     ctx.violation({"kind": "oracle", "clause": cl}, case=c)
             raw_items.append(raw_term(c, a))
             idx_raw.append(i)
             continue
         for cl in oracle(w, c, a, setenv, envm)[:1]:
             n_bad += 1
-            if n_bad <= MAX_REPORT:
+            if report(cl):
                 ctx.violation({"kind": "oracle", "clause": cl}, case=c)
         items.append(case_term(w, c, a, envm))
         idx_call.append(i)
@@ -575,6 +634,8 @@ def run(ctx):
     cov["by_function"] = byfn
     cov["outcomes"] = outcome
     cov["calls_with_late_writing_descendant"] = cov_bg[0]
+    cov["signals_usable_here"] = signals
+    cov["calls_exec_with_failing_writer"] = sum(1 for c in cases if not c.get("raw") and c["fn"] == "Exec" and (wfail_n(c["so"]) is not None or wfail_n(c["se"]) is not None))
     cov["not_startable_shapes_observed_not_started"] = shapes
     cov["verbose"] = verb
     cov["exit_codes_observed"] = len(codes_seen)
